@@ -84,6 +84,41 @@ func pkgOfKey(k string) string {
 	return k[:slash+1+dot]
 }
 
+// funcValuesIn: the functions fn mentions as values (not as the callee of a static call), closures
+// excluded.
+func funcValuesIn(fn *ssa.Function) []*ssa.Function {
+	var out []*ssa.Function
+	seen := map[*ssa.Function]bool{}
+	for _, b := range fn.Blocks {
+		for _, ins := range b.Instrs {
+			var callee ssa.Value
+			if c, ok := ins.(ssa.CallInstruction); ok && !c.Common().IsInvoke() {
+				callee = c.Common().Value
+			}
+			for _, op := range ins.Operands(nil) {
+				if op == nil || *op == nil {
+					continue
+				}
+				v := *op
+				for {
+					if cv, ok := v.(*ssa.ChangeType); ok {
+						v = cv.X
+						continue
+					}
+					break
+				}
+				f, ok := v.(*ssa.Function)
+				if !ok || *op == callee || f.Parent() != nil || seen[f] {
+					continue
+				}
+				seen[f] = true
+				out = append(out, f)
+			}
+		}
+	}
+	return out
+}
+
 func parentOfKey(k string) string {
 	if i := strings.Index(k, "$"); i >= 0 {
 		return k[:i]
@@ -141,6 +176,22 @@ func (e *Engine) rebindFunctions() []string {
 			if !known[fk] || sameParent {
 				cands = append(cands, f)
 				candKeys = append(candKeys, fk)
+			}
+		}
+		if len(cands) == 0 && parentOfKey(k) != "" {
+			// a closure that is gone: a function value of its signature that the enclosing function
+			// now mentions instead (a named function, a method expression) stands in its place
+			if par := e.fnByKey[parentOfKey(k)]; par != nil && par.Blocks != nil {
+				for _, f := range funcValuesIn(par) {
+					if f.Blocks == nil || taken[f] || sigOf(f) != base.Sig {
+						continue
+					}
+					if fk := e.fnKey(f); e.db.Contracts[fk] != nil || known[fk] && f.Synthetic == "" {
+						continue // has its own contract, or was there all along under its own name
+					}
+					cands = append(cands, f)
+					candKeys = append(candKeys, f.String())
+				}
 			}
 		}
 		if len(cands) != 1 {
